@@ -384,6 +384,23 @@ func buildOpPool() []poolOp {
 		o.Long = true
 		pool = append(pool, o)
 	}
+	// a long message slice through Encode (work split by size or processor count happens only here)
+	{
+		o := encodeOp("Encode(activity with 1100 records)", func() *fit.File {
+			f, _ := fit.NewFile(fit.FileTypeActivity, fit.NewHeader(fit.V20, true))
+			a, _ := f.Activity()
+			for i := 0; i < 1100; i++ {
+				r := fit.NewRecordMsg()
+				r.Timestamp = time.Unix(fitmodel.FitEpoch+1000000000+int64(i), 0).UTC()
+				r.PositionLat = fit.NewLatitude(int32(1000 + i))
+				a.Records = append(a.Records, r)
+			}
+			a.Records[1099].HeartRate = 99
+			return f
+		}, false)
+		o.Long = true
+		pool = append(pool, o)
+	}
 	// the checksum package on its own (lazily built tables and shared scratch state would live there)
 	pool = append(pool,
 		poolOp{Name: "dyncrc16.Checksum(4096 bytes)", Run: func(env opEnv) opResult {
@@ -399,6 +416,21 @@ func buildOpPool() []poolOp {
 			return opResult{Text: fmt.Sprintf("sum=%04x size=%d", h.Sum16(), h.Size())}
 		}},
 	)
+	// a File exactly as NewFile returns it (its file_id holds Go zero values, a creation time of year 1 among them):
+	// whatever Encode makes of it, it makes the same thing every time
+	pool = append(pool, encodeOp("Encode(settings File as NewFile returns it)", func() *fit.File {
+		f, _ := fit.NewFile(fit.FileTypeSettings, fit.NewHeader(fit.V20, true))
+		return f
+	}, false))
+	// big-endian records whose time and coordinate fields are narrower than the profile type (the widening path)
+	{
+		d := fitmodel.Def{Local: 1, Big: true, Global: 20, Fields: []fitmodel.FieldDef{{Num: 253, Size: 2, Base: fitmodel.Uint16}, {Num: 0, Size: 2, Base: fitmodel.Sint16}, {Num: 1, Size: 1, Base: fitmodel.Sint8}, {Num: 3, Size: 1, Base: fitmodel.Uint8}}}
+		recs := append(fitmodel.FileIdRecords(0, 4), d.Bytes())
+		for i := 0; i < 6; i++ {
+			recs = append(recs, fitmodel.Data(1, []byte{byte(0x20 + i), byte(i * 41), byte(0x7F + i*0x21), byte(0x80 - i*0x19), byte(0xF0 + i*5), byte(60 + i)}))
+		}
+		pool = append(pool, decodeOp("Decode(big-endian records with 2-byte timestamps and narrow coordinates)", fitmodel.File(fitmodel.DefaultHeader, recs...), nil, nil))
+	}
 	// every call also reports the digest of the profile tables afterwards
 	for i := range pool {
 		run := pool[i].Run
